@@ -538,7 +538,62 @@ def make_perp_spacing_run(start_wall, end_wall, explicit):
     return run
 
 
+def spacing_selection(S):
+    """getSpacings / getTargetParameter: which option reaches which end of which leg.
+    Every option is a distinct token, so the selection is decided exactly (all leg names x
+    region kinds)."""
+    from hypnotoad.core import equilibrium as E
+
+    class Opts:
+        def __init__(self, tag):
+            self.tag = tag
+
+        def __getattr__(self, name):
+            return (self.tag, name)
+
+    legs = {"inner_lower_divertor": "inner_lower", "outer_lower_divertor": "outer_lower", "inner_upper_divertor": "inner_upper", "outer_upper_divertor": "outer_upper", "inner_divertor": "inner_lower", "outer_divertor": "outer_lower"}
+    bad, n = [], 0
+    for name, leg in legs.items():
+        for kind in ("wall.X", "X.wall", "wall.wall", "X.X"):
+            r = object.__new__(E.EquilibriumRegion)
+            r.name, r.kind = name, kind
+            r.user_options, r.nonorthogonal_options = Opts("user"), Opts("nonorth")
+            try:
+                sp = E.EquilibriumRegion.getSpacings(r)
+            except Exception as e:
+                bad.append(dict(name=name, kind=kind, problem="raised %r" % e))
+                continue
+            n += 1
+            for side, endkind in zip(("lower", "upper"), kind.split(".")):
+                if endkind == "wall":
+                    want = {
+                        "sqrt_a_" + side: None,
+                        "sqrt_b_" + side: ("user", "target_%s_poloidal_spacing_length" % leg),
+                        "nonorthogonal_orthogonal_d_" + side: ("user", "target_%s_poloidal_spacing_length" % leg),
+                        "monotonic_d_" + side: ("nonorth", "nonorthogonal_target_%s_poloidal_spacing_length" % leg),
+                        "nonorthogonal_range_" + side: ("nonorth", "nonorthogonal_target_%s_poloidal_spacing_range" % leg),
+                        "nonorthogonal_range_%s_inner" % side: ("nonorth", "nonorthogonal_target_%s_poloidal_spacing_range_inner" % leg),
+                        "nonorthogonal_range_%s_outer" % side: ("nonorth", "nonorthogonal_target_%s_poloidal_spacing_range_outer" % leg),
+                    }
+                else:
+                    want = {
+                        "sqrt_a_" + side: ("user", "xpoint_poloidal_spacing_length"),
+                        "sqrt_b_" + side: 0.0,
+                        "nonorthogonal_orthogonal_d_" + side: ("user", "xpoint_poloidal_spacing_length"),
+                        "monotonic_d_" + side: ("nonorth", "nonorthogonal_xpoint_poloidal_spacing_length"),
+                        "nonorthogonal_range_" + side: ("nonorth", "nonorthogonal_xpoint_poloidal_spacing_range"),
+                        "nonorthogonal_range_%s_inner" % side: ("nonorth", "nonorthogonal_xpoint_poloidal_spacing_range_inner"),
+                        "nonorthogonal_range_%s_outer" % side: ("nonorth", "nonorthogonal_xpoint_poloidal_spacing_range_outer"),
+                    }
+                for k, v in want.items():
+                    if sp.get(k, "missing") != v:
+                        bad.append(dict(name=name, kind=kind, key=k, got=repr(sp.get(k, "missing")), want=repr(v)))
+    S.static_vc("getSpacings", E_ + "getSpacings", "each end of each leg takes the spacing options documented for THAT target (wall end) or the X-point options (X end): %d (leg, kind) combinations, 14 entries each" % n, not bad and n == 24, detail=repr(bad[:3]), kind="native-all-classes", model=bad[0] if bad else None)
+
+
 def build(S):
+    spacing_selection(S)
+    S.under_contract(E_ + "getSpacings", E_ + "getTargetParameter")
     S.under_contract(FN_MONO, FN_SQRT, FN_LIN, FN_CHK, E_ + "combineSfuncs", E_ + "getSfuncFixedSpacing", E_ + "getSfuncFixedPerpSpacing")
     S.assume("N, N_norm treated as reals >= 1; float literals read as exact decimals (source recompiled through the literal-lifting transform)")
     S.assume("concave branch of getMonotonicPoloidalDistanceFunc (brentq, logarithms), end-gradient coefficients and interior monotonicity of the sqrt functions, combineSfuncs with both ranges AND an orthogonal function (boolean-mask renormalisation of the weights): bounded numerical lattice only; strictness of the final point order is enforced by PsiContour.get_distance (C05)")
